@@ -128,7 +128,14 @@ class World(EventDispatcher):
         # Manage replaced components. This has to happen before
         # indexing the new one, as removal cleans the index
         if component_type in self._entities.get(entity, {}):
+            # If this was the only component, the entity is dropped for
+            # a moment, together with its pending deletion (if any)
+            pending_deletion = entity in self._dead_entities
+
             self.remove_component(entity, component_type)
+
+            if pending_deletion:
+                self._dead_entities.add(entity)
 
         if component_type not in self._components:
             self._components[component_type] = set()
